@@ -181,6 +181,68 @@ SPECS["C07"] = dict(
     examples="(* non-vacuity: LoadP.ex_include evaluates two calls of an included program with modes renamed in increasing order *)\n")
 
 
+SPECS["C08"] = dict(
+    title="measured-register arguments become transforms computing the written formula",
+    imports=STD + "From Coq Require Import Permutation.\nFrom BB Require Import Syntax Values Eval EvalP TransformP.",
+    items=[
+        dict(name="c08_argument", comment="an argument mentioning registers is delivered as a transform over exactly the written registers; for ANY duplicate-free listing of those registers, the function applied to the measurement values in the listed order is the arithmetic value of the written expression"),
+        dict(name="c08_plain_argument", comment="arguments without registers stay plain values"),
+        dict(name="transform_pairing"),
+        dict(name="transform_order_irrelevant", comment="the listing order (a set iteration order in the implementation) is irrelevant as long as values are passed in the listed order"),
+        dict(name="transform_pairs_order_irrelevant"),
+        dict(name="eval_regs", comment="the registers of the delivered value are exactly the registers written"),
+        dict(name="eval_regs_complete"),
+        dict(name="wrap_transform_spec"),
+        dict(name="exec_stmt_args", comment="positional and keyword arguments alike"),
+    ],
+    examples="(* non-vacuity: TransformP.Examples evaluates q0*2+q1, wraps it, and applies it in both listing orders (17 = 17) *)\n")
+
+
+SPECS["C19"] = dict(
+    title="loading and serialising are deterministic across runs and hash seeds",
+    imports=STD + "From Coq Require Import Permutation String.\nFrom BB Require Import Syntax Values Eval EvalP TransformP Facts FactsP.",
+    items=[
+        dict(name="set_sites_ok", comment="the order-sensitive uses of Python sets in the sources are exactly the five accounted for below (regenerated from the sources on every run)"),
+        dict(name="transform_order_irrelevant", comment="site 1 (registers of a transform): any listing order gives the same function when values are passed in the listed order - the documented freedom"),
+        dict(name="transform_pairs_order_irrelevant"),
+        dict(name="expand_include_modes_order", comment="the mode set of an included program: the expansion does not depend on the order in which the set is enumerated (modes are sorted)"),
+        dict(name="sortZ_perm_eq"),
+    ],
+    preamble="(* The model itself has no iteration-order freedom: sets are lists in definition order and every function is deterministic;\n"
+             "   what has to be shown is that the places where the implementation iterates a Python set cannot influence the result. *)")
+
+SPECS["C03"]["items"].append(dict(name="func_table_ok", comment="the fifteen named functions are dispatched to the numpy functions of the same name (table regenerated from auxiliary.py)"))
+SPECS["C03"]["imports"] += "\nFrom Coq Require Import String.\nFrom BB Require Import Facts FactsP."
+SPECS["C10"]["items"].append(dict(name="raise_sites_total", comment="every path through the error listener raises BlackbirdSyntaxError(\"Blackbird SyntaxError (line {}:{})...\".format(line, column + 1, ...)) and it cannot fall through (facts regenerated from error.py)"))
+SPECS["C10"]["imports"] += "\nFrom BB Require Import Facts FactsP."
+
+
+SPECS["C18"] = dict(
+    title="comments, blank lines, spacing and line-ending style do not change the program",
+    imports=STD + "From BB Require Import Ebnf Chars Lexer Syntax Parser Values Eval G4Data EbnfP LexerP LayoutP.",
+    items=[
+        dict(name="comment_step", comment="a '#' at a token start swallows the rest of the line as ONE skipped token, whatever the line contains (so comments contribute no token)"),
+        dict(name="comment_token_skipped"),
+        dict(name="newline_step_LF", comment="LF, CR and CRLF each lex to exactly one NEWLINE token"),
+        dict(name="newline_step_CR"),
+        dict(name="newline_step_CRLF"),
+        dict(name="parser_layout_blind", comment="the parser never looks at the text of NEWLINE/TAB tokens nor at positions: token streams that differ only there (LF/CRLF/CR, tab/four spaces, any shift of lines and columns) parse to the same tree up to positions"),
+        dict(name="denote_position_blind", comment="positions influence nothing but the position reported in an error"),
+        dict(name="tokens_layout_blind"),
+        dict(name="pprogram_skips_newline", comment="blank lines between statements and before the metadata are skipped"),
+        dict(name="pscript_leading_newlines"),
+        dict(name="rules_avoid_LF", comment="no token other than NEWLINE (and ANY) spans a line end; only STR/COMMENT/ANY contain '#'; only STR/COMMENT/SPACE/TAB/ANY contain a space"),
+        dict(name="rules_avoid_CR"),
+        dict(name="rules_avoid_hash"),
+        dict(name="rules_avoid_space"),
+        dict(name="avoids_sound"),
+    ],
+    examples="(* documented facts proved by computation in LayoutP: tab_equiv_tab / tab_equiv_four_spaces (one TAB token each), spaces_1..3 (skipped),\n"
+             "   spaces_8 and tab_tab (eight spaces or two tabs are ONE skipped SPACE token: the equivalence holds for a single indentation unit),\n"
+             "   visible_tokens. NOT proved: the general separation lemma for runs of 1-3 spaces between two arbitrary tokens and the final-newline\n"
+             "   clause at parser level; these clauses are covered by the correspondence only (partial). *)\n")
+
+
 def main():
     which = sys.argv[1:] or sorted(SPECS)
     for p in which:
